@@ -32,6 +32,10 @@ Inductive xop :=
 | XW (batch : list rec)                                   (* one acknowledged write request, full values *)
 | XGC (bk fid nseq res : N)                               (* valueLog.rewrite; res 0 = nil error *)
 | XGCW (bk fid nseq : N) (batch : list rec) (res : N)     (* the same with a writer's request at the yield point *)
+(* hot/cold bucket routing: the bucket of every out-of-line entry is reported (Model/Vlog.v db_write_r) *)
+| XWr (batch : list (rec * N))
+| XGCr (bk fid nseq res : N) (routes : list (bytes * N * N))
+| XGCWr (bk fid nseq : N) (batch : list (rec * N)) (res : N) (routes : list (bytes * N * N))
 | XVl (l : list (N * N * N * list (N * N)))               (* per bucket: index, active fid, head offset, (fid, #records) *)
 | XRotate (newid : N)
 | XFlush
@@ -198,6 +202,19 @@ Definition step (c : cfg) (now : N) (a : acc) (o : xop) : acc :=
       let moved := match gc_decide now d bk fid nseq with Some wb => keys_of wb | None => [] end in
       {| a_db := d'; a_ws := a_ws a ++ batch; a_mis := a_mis a || negb (res_of r =? res); a_vio := a_vio a; a_known := a_known a;
          a_moved := moved ++ a_moved a; a_raced := keys_of batch ++ a_raced a |}
+  | XWr batch =>
+      {| a_db := db_write_r c d batch; a_ws := a_ws a ++ map fst batch; a_mis := a_mis a; a_vio := a_vio a; a_known := a_known a;
+         a_moved := a_moved a; a_raced := a_raced a |}
+  | XGCr bk fid nseq res routes =>
+      let '(d', r) := rewrite_r c now d bk fid nseq routes in
+      let moved := match gc_decide now d bk fid nseq with Some wb => keys_of wb | None => [] end in
+      {| a_db := d'; a_ws := a_ws a; a_mis := a_mis a || negb (res_of r =? res); a_vio := a_vio a; a_known := a_known a;
+         a_moved := moved ++ a_moved a; a_raced := a_raced a |}
+  | XGCWr bk fid nseq batch res routes =>
+      let '(d', r) := rewrite_race_r c now d bk fid nseq batch routes in
+      let moved := match gc_decide now d bk fid nseq with Some wb => keys_of wb | None => [] end in
+      {| a_db := d'; a_ws := a_ws a ++ map fst batch; a_mis := a_mis a || negb (res_of r =? res); a_vio := a_vio a; a_known := a_known a;
+         a_moved := moved ++ a_moved a; a_raced := keys_of (map fst batch) ++ a_raced a |}
   | XVl l => flag a (negb (vl_eqb (vl_layout (d_vl d)) l)) false 0
   | XRotate newid => upd a (with_lsm d (set_memid (set_maxfid (rotate s) (N.max (st_maxfid s) newid)) newid))
   | XFlush => upd a (with_lsm d (flush s))
@@ -236,6 +253,7 @@ Definition check (c : case) : verdict :=
 (* compact constructors for the harness *)
 Definition W (k : string) (ver : N) (v : string) (meta exp seq : N) : rec :=
   {| r_key := unhex k; r_ver := ver; r_val := unhex v; r_meta := meta; r_exp := exp; r_seq := seq |}.
+Definition Rt (k : string) (ver bk : N) : bytes * N * N := (unhex k, ver, bk).
 Definition G (k : string) (v : N) (o : robs) : xop := XGetV (unhex k) v o.
 Definition GP (k : string) (o : robs) : xop := XGetP (unhex k) o.
 Definition GT (k : string) (ts : N) (o : robs) : xop := XGetT (unhex k) ts o.
